@@ -18,7 +18,8 @@ PROP = 'C17'
 RULE = ('cells = (orthogonal wavelet from all 75 of db*, sym*, coif*, haar; dim; J in 1..3; N = m*2^J with '
         'every level even and >= the filter length, m in {L/2, L/2+1, L/2+3}; 2-D for L<=12, non-square); per '
         'cell the full operators A and S from impulse executions, dense inputs for energy / inner products, '
-        'dense cotangents for backward == inverse; distinct by (cell, check)')
+        'dense cotangents for backward == inverse; distinct by (cell, check)'
+        '; the analysis / synthesis operators of converted module pairs (float32-built .double(), float64-built .float()) against the native float64 ones at float32 precision; reload histories; backward of the inverse')
 ASSUMPTIONS = ['float64', 'tolerance scaled by the orthonormality defect of the PyWavelets taps themselves']
 TIMEOUT = {'quick': 900, 'thorough': 3000}
 WORKER_BUDGET = {'quick': 600, 'thorough': 2400}
